@@ -144,23 +144,29 @@ def run(prop, tier, seed):
         # phase 2: the same message classes CONCURRENTLY (16 request streams next to a stream that keeps creating accounts through
         # Dirk); afterwards a fresh client must still be answered ("... or to stop answering other requests")
         light = [m_ for m_ in msgs if m_["shape"].get("count") not in ("300",) and "len100000" not in m_["shape"].values() and not m_["method"].startswith("Dkg")]
-        storm_plan = dict(calls=[], storm=dict(workers=16, generates=200 if tier == "quick" else 1500, msgs=light[:400]))
+        storm_plan = dict(calls=[], storm=dict(workers=32, generates=400 if tier == "quick" else 2000, msgs=light[:400]))
         storm = None
         hangs = []
-        for attempt in range(3 if not verdict.violations else 0):     # a daemon that a single message kills needs no concurrent phase
-            evs_s, rc_s, err_s = apifamily.run_apidrv(storm_plan, wd, "storm%d" % attempt, timeout=1500, dirk=build_dirk() if attempt % 2 else None)
-            st = [e for e in evs_s if e["ev"] == "Storm"]
-            if rc_s == 0 and st:
-                storm = storm or st[0]
-                if not hangs:
-                    break
-                continue
-            if rc_s == 3 and st:
-                hangs.append(st[0])
+        if not verdict.violations:       # a daemon that a single message kills needs no concurrent phase
+            for target_name, dirk in (("inprocess", None), ("binary", build_dirk())):
+                for attempt in range(3):
+                    evs_s, rc_s, err_s = apifamily.run_apidrv(storm_plan, wd, "storm_%s%d" % (target_name, attempt), timeout=1500, dirk=dirk)
+                    st = [e for e in evs_s if e["ev"] == "Storm"]
+                    if rc_s == 0 and st:
+                        storm = storm or st[0]
+                        if not hangs:
+                            break        # answered everything: next target
+                        continue         # a hang was seen before: keep trying to reproduce it
+                    if rc_s == 3 and st:
+                        hangs.append(dict(st[0], served_by=target_name))
+                        if len(hangs) >= 2:
+                            break
+                        continue
+                    if harness_panic(err_s, bool(dirk)):
+                        raise Inconclusive("the harness itself panicked in the concurrent phase (%s): %s" % (target_name, err_s[:600]))
+                    raise Inconclusive("concurrent phase (%s): apidrv exited %s: %s" % (target_name, rc_s, err_s[-300:]))
                 if len(hangs) >= 2:
                     break
-                continue
-            raise Inconclusive("concurrent phase: apidrv exited %s: %s" % (rc_s, err_s[-300:]))
         if len(hangs) >= 2:
             verdict.violation("hang:concurrent-load", "the daemon stopped answering under concurrent client load (account creation next to signing requests that "
                               "address the created accounts); reproduced on a fresh server: %s" % hangs[0], dict(storm=storm_plan["storm"], observations=hangs))
